@@ -2,21 +2,22 @@
 """machinery self-test: every seeded change must be reported (exit 1) by the checks recorded in its meta.json.
 Runs on a scratch copy of /repo (VERIF_REPO), never touches /repo.  usage: selftest_seeds.py [seed ...] [--kani]"""
 import json, os, subprocess, sys, shutil, glob
-seeds = [a for a in sys.argv[1:] if not a.startswith('--')] or sorted(os.listdir('/verif/seeded'))
+ROOT = os.path.dirname(os.path.dirname(os.path.abspath(__file__)))
+seeds = [a for a in sys.argv[1:] if not a.startswith('--')] or sorted(os.listdir(ROOT + '/seeded'))
 skip_kani = '--kani' not in sys.argv
-scratch = '/root/scratch/selftest-repo'
+scratch = '/root/scratch/selftest-repo-%d' % os.getpid()
 bad = 0
 for sd in seeds:
-    meta = json.load(open('/verif/seeded/%s/meta.json' % sd))
+    meta = json.load(open(ROOT + '/seeded/%s/meta.json' % sd))
     subprocess.run(['rsync', '-a', '--delete', '--exclude', 'target', '--exclude', '.git', '/repo/', scratch + '/'], check=True)
-    r = subprocess.run(['patch', '-p1', '-s', '-i', '/verif/seeded/%s/patch.diff' % sd], cwd=scratch)
+    r = subprocess.run(['patch', '-p1', '-s', '-i', ROOT + '/seeded/%s/patch.diff' % sd], cwd=scratch)
     if r.returncode:
         print(sd, 'PATCH DOES NOT APPLY'); bad += 1; continue
     for pid in meta['caught_by']:
         env = dict(os.environ, VERIF_REPO=scratch)
         if skip_kani:
             env['VERIF_DEV_SKIP_KANI'] = '1'
-        p = subprocess.run(['/verif/check', pid], env=env, stdout=subprocess.PIPE, stderr=subprocess.STDOUT, text=True)
+        p = subprocess.run([ROOT + '/check', pid], env=env, stdout=subprocess.PIPE, stderr=subprocess.STDOUT, text=True)
         lines = [l for l in p.stdout.split('\n') if l.startswith('VIOLATION')]
         ok = p.returncode == 1 and lines
         obls = []
@@ -29,7 +30,7 @@ for sd in seeds:
         meta.setdefault('detected', {})[pid] = obls
         if not ok:
             bad += 1
-    json.dump(meta, open('/verif/seeded/%s/meta.json' % sd, 'w'), indent=1)
+    json.dump(meta, open(ROOT + '/seeded/%s/meta.json' % sd, 'w'), indent=1)
 shutil.rmtree(scratch, ignore_errors=True)
 # the evidence files were overwritten by runs on changed trees: regenerate them on the real tree
 print('NOTE: re-run the checks on /repo to regenerate evidence before committing')
